@@ -1377,6 +1377,19 @@ class VarSub(Vars):
         indices_all = super().get_ind()
         return indices_all[self.indices].flatten()
 
+    def assign(self, values):
+
+        if self.model.mtype != 'S':
+            raise ValueError('Unsupported variables.')
+
+        if not isinstance(values, (np.ndarray, Real)):
+            raise TypeError('The second argument must be numerical values.')
+
+        num = self.get_ind().size
+        values = np.array(values, dtype=float).flatten() + np.zeros(num)
+
+        return RandVal(self, values)
+
     def get(self):
 
         return np.array(super().get()).reshape(self.shape)[self.indices]
@@ -3051,7 +3064,7 @@ class RoAffine:
             if not isinstance(arg, RandVal):
                 raise TypeError('Unsupported type for defining random variable values.')
 
-            index = range(arg.rvar.first, arg.rvar.last)
+            index = arg.rvar.get_ind()
             rvec[index] = arg.values.ravel()
 
         raffine_value = self.raffine()
@@ -4911,7 +4924,7 @@ class DecRoAffine(RoAffine):
             if not isinstance(arg, RandVal):
                 raise TypeError('Unsupported type for defining random variable values.')
 
-            index = range(arg.rvar.first, arg.rvar.last)
+            index = arg.rvar.get_ind()
             # rvec[index] = arg.values.ravel()
             if not arg.sw:
                 rvecs.loc[:, index] = arg.values.ravel()
